@@ -53,6 +53,8 @@ HARNESSES += both("clustering", "c04_dbscan", "DbscanParams", "min_points>1, tol
 HARNESSES += both("clustering", "c04_optics", "OpticsParams", "min_points>1, tolerance>0 (+inf allowed: it is the default)",
                   ["linfa_clustering::OpticsParams::{new,tolerance,check_ref,check}", "linfa_clustering::Optics::params"],
                   assumes=("tolerance: every non-NaN value except -0.0 (+inf is the documented default)",))
+HARNESSES += both("clustering", "c04_gmm_with_rng", "GmmParams (generator exchanged by with_rng after the setters)", "as c04_gmm",
+                  ["linfa_clustering::GmmParams::{with_rng,check_ref,check}"], 9)
 HARNESSES += both("clustering", "c04_gmm", "GmmParams", "n_clusters>=1, tolerance>0, reg_covar>=0 (doc: 'Non-negative'), n_runs>=1, max_n_iterations>=1; init in {KMeans,Random}",
                   ["linfa_clustering::GmmParams::{new,tolerance,reg_covariance,n_runs,max_n_iterations,init_method,check_ref,check}", "linfa_clustering::GaussianMixtureModel::params"], 9)
 
@@ -85,6 +87,8 @@ HARNESSES += both("misc::ica", "c04_fastica", "FastIcaParams", "tol >0 accepted 
                   ["linfa_ica::hyperparams::FastIcaParams::{new,tol,max_iter,ncomponents,random_state,gfunc,check_ref,check}"])
 HARNESSES.append(H("misc::reduction::c04_diffusion_map", "DiffusionMapParams", "steps>=1, embedding_size>=1", ["linfa_reduction::DiffusionMapParams::{new,steps,check_ref,check}"], assumes=()))
 HARNESSES.append(H("misc::reduction::c04_gaussian_random_projection", "RandomProjectionParams<Gaussian>", "target_dim>=1 | eps in the open interval (0,1) | default eps=0.1", ["linfa_reduction::random_projection::RandomProjectionParams<Gaussian,_>::{target_dim,eps,check_ref,check}"], 9))
+HARNESSES.append(H("misc::reduction::c04_gaussian_random_projection_with_rng", "RandomProjectionParams<Gaussian> (generator exchanged by with_rng after the setters)", "as c04_gaussian_random_projection", ["linfa_reduction::random_projection::RandomProjectionParams::{with_rng,check_ref,check}"], 9))
+HARNESSES.append(H("misc::reduction::c04_sparse_random_projection_with_rng", "RandomProjectionParams<Sparse> (generator exchanged by with_rng after the setters)", "as c04_sparse_random_projection", ["linfa_reduction::random_projection::RandomProjectionParams::{with_rng,check_ref,check}"], 9, tiers=("thorough",)))
 HARNESSES.append(H("misc::reduction::c04_sparse_random_projection", "RandomProjectionParams<Sparse>", "target_dim>=1 | eps in the open interval (0,1) | default eps=0.1", ["linfa_reduction::random_projection::RandomProjectionParams<Sparse,_>::{target_dim,eps,check_ref,check}"], 9))
 HARNESSES += both("misc::hierarchical", "c04_hierarchical", "HierarchicalCluster", "num_clusters>=1 | max_distance >0 accepted / <0 rejected (0 undecided) | default",
                   ["linfa_hierarchical::HierarchicalCluster::{default,with_method,num_clusters,max_distance,check_ref,check}"])
